@@ -165,6 +165,25 @@ def fine_secondary_tie(rng):
     return {"ballots": ballots, "cands": cands}, names
 
 
+THREE_WAY_LEADER = [
+    [(["D", "B"], 2), (["B", "A", "D"], 2), (["A", "C", "D", "B"], 2)],                            # fpv A=B=D, Borda A > B = D
+    [(["B", "A", "C"], 2), (["D", "B", "A"], 1), (["B", "C", "D", "A"], 1), (["C", "D"], 3), (["A"], 3)],   # C > A = B
+    [(["B"], 3), (["D"], 3), (["C", "B"], 1), (["A"], 3)],                                            # B > A = D
+]
+
+
+def three_way_leader_tie(rng):
+    """Three candidates tied on first-place votes; Borda separates the LEADER and leaves the other two
+    tied: a 'borda' tiebreak must still draw for the lower pair (m = 2 seats from the tie shows it)."""
+    names = pick_names(rng, 4)
+    ren = dict(zip("ABCD", names))
+    ballots = [{"r": [[ren[c]] for c in r], "w": str(w)} for r, w in rng.choice(THREE_WAY_LEADER)]
+    rng.shuffle(ballots)
+    cands = list(names)
+    rng.shuffle(cands)
+    return {"ballots": ballots, "cands": cands}, names
+
+
 def four_way_pair_tie(rng):
     """Four candidates tied on first-place votes whose Borda scores leave TWO still-tied pairs: a
     'borda' tiebreak must fall back to a random order inside each pair and splice both back in place."""
